@@ -91,7 +91,16 @@ def generate_subgraphs(graph: IterationNode) -> list[IterationNode]:
             all_subgraphs.update(new_graphs)
             old_subgraphs = new_graphs
 
-    return list(all_subgraphs.values())
+    # A subgraph must be emitted after every subgraph whose sparse leaves are a strict superset of
+    # its own, because each loop assumes that the leaves it does not mention are exhausted. The
+    # discovery order above does not guarantee that (zeroing one factor of a product can jump
+    # straight to a much smaller set), so order by decreasing number of sparse leaves. The sort is
+    # stable, so subgraphs of equal size keep their discovery order.
+    return sorted(
+        all_subgraphs.values(),
+        key=lambda subgraph: len(subgraph.compressed_dimensions()),
+        reverse=True,
+    )
 
 
 @to_ir_iteration_graph.register(IterationNode)
